@@ -698,16 +698,16 @@ func c03Periodic(c *core.Ctx, rule string, withUpdateSibling bool) {
 		for _, f := range core.FactsAt(in.Block()) {
 			if cl, ok := f.V.(*ssa.Call); ok && f.True {
 				if cal := core.Callee(cl); cal != nil && cal.Name() == "PERIO" {
-					if al, ok := core.CallRecv(cl).(*ssa.Alloc); ok {
-						// that local is filled from this request's Reporting Triggers IE
-						for _, r := range *al.Referrers() {
-							if uc, ok := r.(*ssa.Call); ok && core.Callee(uc) != nil && core.Callee(uc).Name() == "Unmarshal" {
-								if x.describeLeaf(core.CallArgs(uc)[0], 0) == "ReportingTriggers()" {
-									guard = true
-								}
+					// that local (a variable, or a field of a struct-typed local) is filled from this request's
+					// Reporting Triggers IE
+					loc := core.CallRecv(cl)
+					core.Instrs(create, func(in2 ssa.Instruction) {
+						if uc, ok := in2.(*ssa.Call); ok && core.Callee(uc) != nil && core.Callee(uc).Name() == "Unmarshal" && core.CallRecv(uc) != nil && sameAddr(core.CallRecv(uc), loc) {
+							if x.describeLeaf(core.CallArgs(uc)[0], 0) == "ReportingTriggers()" {
+								guard = true
 							}
 						}
-					}
+					})
 				}
 			}
 		}
